@@ -29,6 +29,8 @@ def one(d):
     meta = json.load(open(os.path.join(d, "meta.json")))
     pid = meta["breaks_property"]
     t0 = time.time()
+    if meta.get("obsolete_since"):
+        return name, pid, "obsolete", [meta["obsolete_since"]["repo_commit"]], 0.0
     tmp = tempfile.mkdtemp(prefix="seed-", dir=root)
     try:
         shutil.copytree(os.path.join(REPO, "aquacrop"), os.path.join(tmp, "aquacrop"), ignore=shutil.ignore_patterns("__pycache__", "*.pyc"))
@@ -67,6 +69,9 @@ dirs = [d for d in sorted(glob.glob(os.path.join(V, "seeded", "*"))) if os.path.
 missed = []
 with ThreadPoolExecutor(jobs) as ex:
     for name, pid, caught, sigs, dt in ex.map(one, dirs):
+        if caught == "obsolete":
+            print(f"{name:70s} {pid} OBSOLETE since repo commit {sigs[0]} (no longer breaks the property)", flush=True)
+            continue
         print(f"{name:70s} {pid} {'CAUGHT' if caught else ('MISSED' if caught is False else 'ERROR')} {sigs[:2]} {dt:.0f}s", flush=True)
         mp = os.path.join(V, "seeded", name, "meta.json")
         m = json.load(open(mp))
